@@ -416,7 +416,17 @@ def next_tag(name: str, state: dict[str, Any], op: dict[str, Any] | None) -> int
         raise KeyError(name)
     base = t257 if m.group(1) == "plain" else t385
     tag = (base + int(m.group(2) or 0)) % 65536
-    return tag or None  # the configuration schema has key_tag >= 1: a KSK with key tag 0 cannot be configured with its tag
+    return tag if tag >= ksk_tag_min() else None  # a tag the configuration schema refuses cannot be configured
+
+
+def ksk_tag_min() -> int:
+    """Smallest key_tag the configuration schema accepts (read from the pydantic field, not assumed)."""
+    from kskm.common.config_misc import KSKKey
+
+    for m in KSKKey.model_fields["key_tag"].metadata:
+        if getattr(m, "ge", None) is not None:
+            return int(m.ge)
+    return 0
 
 
 def config(name: str, state: dict[str, Any], op: dict[str, Any] | None = None) -> Any:
@@ -636,6 +646,16 @@ def judge_keygen(state: dict[str, Any], op: dict[str, Any], run: dict[str, Any],
     if not ok:
         if added:
             res.bump("boundary:failed-keygen-leaves-new-pair")
+            # the pair exists on the token, so the generation itself succeeded: the only documented reason for the run to
+            # fail now is a collision of one of the key's two TRUE tags with a configured KSK's tag
+            pubs = [t for t in added if t[3] == CKO_PUBLIC and t[7] == CKK_RSA]
+            if len(added) == 2 and len(pubs) == 1:
+                tk0 = key_of(json.loads(pubs[0][6]))
+                a257, a385, _ds = rfc_tags(tk0, 8)
+                conf = [k.key_tag for k in run["cfg"].ksk_keys.values() if k.key_tag is not None]
+                if a257 not in conf and a385 not in conf:
+                    res.violation(WHAT_KEYGEN_REPORT, ctx, key=f"keygen-fails-without-collision:{run['impl'].get('error')}", tags=[a257, a385], configured=conf, impl=run["impl"], last_messages=[m[:160] for _l, m in run["messages"]][-2:])
+                    return "keygen-fails-without-collision"
         if removed:
             res.violation(WHAT_KEYGEN_PAIR, ctx, key="keygen-removed", removed=removed)
             return "keygen-removed"
@@ -756,7 +776,15 @@ def judge_inventory(state: dict[str, Any], op: dict[str, Any], run: dict[str, An
         res.violation(WHAT_INVENTORY, ctx, key="inventory-changed-token")
         return "inventory-changed-token"
     if "ok" not in run["impl"]:
-        return None  # an inventory that fails lists nothing: compared with the model only
+        # the emulated token is healthy and the configuration loaded: an inventory that ends in an exception lists nothing,
+        # i.e. not "every object of every slot once"
+        if ctx.get("config") == "A-ec-alg":
+            # outside the property's quantifier (configurations vary in their key TAGS): a KSK entry claiming an ECDSA algorithm
+            # for a label whose token key is RSA makes the inventory end in a ValidationError instead of a BAD KSK line
+            res.bump("boundary:inventory-fails-on-algorithm-family-mismatch")
+            return None
+        res.violation(WHAT_INVENTORY, ctx, key=f"inventory-fails:{run['impl'].get('error')}", impl=run["impl"])
+        return "inventory-fails"
     msgs = [m for lvl, m in run["messages"] if m.startswith("Key inventory:\n")]
     if len(msgs) != 1:
         res.violation(WHAT_INVENTORY, ctx, key="inventory-no-output", messages=run["messages"][:3])
